@@ -334,7 +334,7 @@ class Judge:
 
 # ------------------------------------------------------------------------------------------------ the check
 MC_BASE = {"SymLits": "<- SymA", "MaxPath": "2", "NFlowsA": "0", "MaxFlows": "3", "FlowDomain": "<- FlowsA", "TxnDomain": "<- TxnsA",
-           "KF_NodeReq": "FALSE", "LookupMode": '"exact"', "KF_EndTest": "FALSE", "KF_WildNew": "TRUE"}
+           "KF_NodeReq": "FALSE", "LookupMode": '"exact"', "KF_EndTest": "FALSE", "KF_WildNew": "TRUE", "KF_WildHost": "FALSE"}
 
 
 def write_cfg(sd, name, over, gen=None):
@@ -374,7 +374,8 @@ def phase1(ctx, sd):
     broken = [("O7 node-level requirement copy", dict(SPACE_B, KF_NodeReq="TRUE")),
               ("O8 AddFlow through the old Lookup", {"LookupMode": '"old"'}),
               ("AddFlow through the request-style Lookup (wildcard sibling replaced)", {"LookupMode": '"new"'}),
-              ("O9 end-of-URL test", {"KF_EndTest": "TRUE"})]
+              ("O9 end-of-URL test", {"KF_EndTest": "TRUE"}),
+              ("path wildcard collected while host labels are consumed", {"KF_WildHost": "TRUE"})]
     tasks = [("ex", i, r) for i, r in enumerate(runs)] + [("nv", i, r) for i, r in enumerate(broken)] + [("gen", 0, "A"), ("gen", 1, "B")]
 
     def one(t):
